@@ -771,7 +771,7 @@ class NodeError:
 
     def evaluate(self, environment):
         value = self.expression.evaluate(environment)
-        raise CklRuntimeError(value, value, self.pos)
+        raise CklRuntimeError(value, str(value), self.pos)
 
     def __repr__(self):
         return f"(error {self.expression})"
